@@ -1284,3 +1284,194 @@ func runCountGuardExact(c *Ctx) {
 		c.Unknown("count-guard/return", f.Pos(), "chunkCountFits has no non-constant return")
 	}
 }
+
+// ---- round 15 ----
+
+func init() {
+	Register(&Rule{
+		Name:  "R-AUTH-ROLE-WHOLE-BYTE",
+		Props: []string{"C08"},
+		Min:   1,
+		Doc: "every bit of an authentication message is either compared or under the MAC: the role readAuthMessage returns is the byte of the message as it is (an index expression of the buffer, no mask, shift or arithmetic) - " +
+			"the callers compare that value with the expected role and recompute the MAC over it; with the upper bits masked off in the reader, four bits of each message are covered by nothing and an altered message verifies",
+		Run: runAuthRoleWholeByte,
+	})
+	Register(&Rule{
+		Name:  "R-INTACT-BY-EQUAL-SIZE",
+		Props: []string{"C01", "C06"},
+		Min:   2,
+		Doc: "resume metadata are kept only for a data file of exactly the announced length: in internal/transfer every comparison between the size of a stat'ed file and a FileBegin's FileSize is an equality (== / !=) - " +
+			"a file that is longer was replaced or appended to after the interrupted run; kept `intact` under >=, its stale metadata make the sender skip chunks that hold foreign bytes, Truncate fixes the length and both sides report success",
+		Run: runIntactByEqualSize,
+	})
+	Register(&Rule{
+		Name:  "R-TURN-SECRET-DECODED",
+		Props: []string{"C16"},
+		Min:   1,
+		Doc: "the relay secret reaches the TURN client as the server minted it: in parseTurnServer the secret is the first result of (*url.Userinfo).Password() (decoded) and the escaped forms (*url.Userinfo).String / (*url.URL).String are not read - " +
+			"a REST credential is base64: about one in three contains '/', which the server's url.UserPassword sends as %2F; cut out of the escaped form, the client derives another secret, the allocation is refused and the client falls back to no relay",
+		Run: runTurnSecretDecoded,
+	})
+}
+
+func runAuthRoleWholeByte(c *Ctx) {
+	p := c.P
+	f := p.Func("app.readAuthMessage")
+	if f == nil {
+		c.MissingAnchor("app.readAuthMessage")
+		return
+	}
+	info := f.Info()
+	n := 0
+	InspectNoLits(f.Body, func(m ast.Node) bool {
+		rs, ok := m.(*ast.ReturnStmt)
+		if !ok || len(rs.Results) < 1 {
+			return true
+		}
+		e := ast.Unparen(rs.Results[0])
+		if tv, ok := info.Types[e]; ok && tv.Value != nil {
+			return true // the error returns: a constant 0
+		}
+		n++
+		key := fmt.Sprintf("auth-role/return#%d", n)
+		src := e
+		if _, isId := e.(*ast.Ident); isId {
+			if d := localDef(f, e); d != nil {
+				src = ast.Unparen(d)
+			} else {
+				c.Unknown(key, rs.Pos(), "the role returned by readAuthMessage has no single definition")
+				return true
+			}
+		}
+		if ix, ok := src.(*ast.IndexExpr); ok {
+			c.OK(key, rs.Pos(), "the role returned is "+types.ExprString(ix)+", the byte of the message as it is")
+		} else {
+			c.Bad(key, rs.Pos(), "readAuthMessage returns the role as `"+types.ExprString(src)+"`, not as the byte of the message: the bits the expression drops are neither compared with the expected role nor covered by the MAC the callers recompute over the returned value - "+
+				"an authentication message altered in those bits verifies")
+		}
+		return true
+	})
+	if n == 0 {
+		c.Unknown("auth-role/return", f.Pos(), "readAuthMessage has no non-constant role return")
+	}
+}
+
+func runIntactByEqualSize(c *Ctx) {
+	p := c.P
+	n := 0
+	for _, f := range p.FuncsIn("internal/transfer") {
+		if f.Body == nil || strings.HasSuffix(p.Fset.Position(f.Pos()).Filename, "_test.go") {
+			continue
+		}
+		info := f.Info()
+		k := 0
+		InspectNoLits(f.Body, func(m ast.Node) bool {
+			be, ok := m.(*ast.BinaryExpr)
+			if !ok {
+				return true
+			}
+			switch be.Op {
+			case token.EQL, token.NEQ, token.LSS, token.GTR, token.LEQ, token.GEQ:
+			default:
+				return true
+			}
+			hasStatSize := func(e ast.Expr) bool {
+				found := false
+				ast.Inspect(e, func(x ast.Node) bool {
+					if call, ok := x.(*ast.CallExpr); ok {
+						if sel, ok := ast.Unparen(call.Fun).(*ast.SelectorExpr); ok && sel.Sel.Name == "Size" && len(call.Args) == 0 {
+							if t := info.TypeOf(sel.X); t != nil && strings.HasSuffix(types.Unalias(t).String(), "fs.FileInfo") {
+								found = true
+							}
+						}
+					}
+					return true
+				})
+				return found
+			}
+			hasAnnounced := func(e ast.Expr) bool {
+				found := false
+				ast.Inspect(e, func(x ast.Node) bool {
+					if sel, ok := x.(*ast.SelectorExpr); ok && sel.Sel.Name == "FileSize" {
+						if t := info.TypeOf(sel.X); t != nil && strings.HasSuffix(strings.TrimPrefix(t.String(), "*"), "transfer.FileBegin") {
+							found = true
+						}
+					}
+					return true
+				})
+				return found
+			}
+			if !((hasStatSize(be.X) && hasAnnounced(be.Y)) || (hasStatSize(be.Y) && hasAnnounced(be.X))) {
+				return true
+			}
+			k++
+			n++
+			key := fmt.Sprintf("intact-size/%s#%d", f.Name, k)
+			if be.Op == token.EQL || be.Op == token.NEQ {
+				c.OK(key, be.Pos(), "the size of the file on disk is compared with the announced size for equality")
+			} else {
+				c.Bad(key, be.Pos(), f.Name+" compares the size of the file on disk with the announced size by `"+types.ExprString(be)+"`: a file of another length than the one the metadata describe counts as intact - "+
+					"its stale metadata are reported, the sender skips the recorded chunks, Truncate fixes the length, and both sides report success over foreign bytes")
+			}
+			return true
+		})
+	}
+	if n == 0 {
+		c.Bad("intact-size/none", token.NoPos, "found no comparison of a stat'ed size with FileBegin.FileSize in internal/transfer")
+	}
+}
+
+func runTurnSecretDecoded(c *Ctx) {
+	p := c.P
+	f := p.Func("ice.parseTurnServer")
+	if f == nil {
+		c.MissingAnchor("ice.parseTurnServer")
+		return
+	}
+	info := f.Info()
+	isUserinfo := func(e ast.Expr) bool {
+		t := info.TypeOf(e)
+		return t != nil && strings.HasSuffix(strings.TrimPrefix(t.String(), "*"), "net/url.Userinfo")
+	}
+	isURL := func(e ast.Expr) bool {
+		t := info.TypeOf(e)
+		return t != nil && strings.HasSuffix(strings.TrimPrefix(t.String(), "*"), "net/url.URL")
+	}
+	nPwd, bad := 0, 0
+	ast.Inspect(f.Body, func(m ast.Node) bool {
+		switch v := m.(type) {
+		case *ast.AssignStmt:
+			if len(v.Rhs) != 1 {
+				return true
+			}
+			call, ok := ast.Unparen(v.Rhs[0]).(*ast.CallExpr)
+			if !ok {
+				return true
+			}
+			sel, ok := ast.Unparen(call.Fun).(*ast.SelectorExpr)
+			if !ok || sel.Sel.Name != "Password" || !isUserinfo(sel.X) {
+				return true
+			}
+			nPwd++
+			if id, ok := v.Lhs[0].(*ast.Ident); ok && id.Name == "_" {
+				bad++
+				c.Bad(fmt.Sprintf("turn-secret/password#%d", nPwd), v.Pos(), "parseTurnServer discards the decoded secret of "+types.ExprString(call)+": whatever it uses instead is not what the server minted")
+			}
+		case *ast.CallExpr:
+			sel, ok := ast.Unparen(v.Fun).(*ast.SelectorExpr)
+			if !ok {
+				return true
+			}
+			if (sel.Sel.Name == "String" && (isUserinfo(sel.X) || isURL(sel.X))) || (sel.Sel.Name == "EscapedPath" && isURL(sel.X)) {
+				bad++
+				c.Bad("turn-secret/escaped-form", v.Pos(), "parseTurnServer reads "+types.ExprString(v)+", the escaped form of the URL: a credential cut out of it keeps its %2F and %3D where the server minted '/' and '=' - the relay refuses the allocation and the client goes on without a relay")
+			}
+		}
+		return true
+	})
+	if nPwd == 0 {
+		c.Bad("turn-secret/password", f.Pos(), "parseTurnServer never asks (*url.Userinfo).Password() for the decoded secret")
+	} else if bad == 0 {
+		c.OK("turn-secret/decoded", f.Pos(), "the secret is the decoded result of Userinfo.Password(); no escaped form of the URL is read")
+	}
+}
